@@ -54,6 +54,7 @@ struct FnSpec {
     ret: Option<String>,
     sig: Option<String>,
     params: Option<Vec<String>>,
+    locals: Option<Vec<String>>,
     clauses: Vec<Clause>, // requires/ensures on fn
     loops: BTreeMap<usize, Vec<Clause>>,
     closure_heads: BTreeMap<usize, String>,
@@ -80,6 +81,11 @@ struct Ctx {
     out: String,
     items: Vec<Value>,
     trust: Vec<Value>,
+    /// constants already extracted by an explicit `//@ item`
+    have_consts: Vec<String>,
+    /// (file, name) of constants used by extracted bodies, defined in the same source file and not extracted: E15
+    need_consts: Vec<(String, String)>,
+    auto_consts: Vec<(String, String)>,
 }
 
 impl Ctx {
@@ -247,6 +253,8 @@ struct BodyV<'a> {
     fresh: Vec<(usize, String)>, // (after byte, var)
     strlits: Vec<String>,
     errs: Vec<String>,
+    lets: Vec<String>,       // identifiers bound by `let` / `if let` / `while let` patterns, in source order
+    upper_idents: Vec<String>, // single-segment UPPER_CASE paths used in the body (constants)
 }
 
 impl<'a> BodyV<'a> {
@@ -417,6 +425,25 @@ impl<'a, 'ast> Visit<'ast> for BodyV<'a> {
         self.closures.push((o1, bs, be, head_end, names, is_block));
         syn::visit::visit_expr_closure(self, c);
     }
+    fn visit_pat_ident(&mut self, p: &'ast syn::PatIdent) {
+        let n = p.ident.to_string();
+        // `None` and other unit variants parse as identifier patterns; bindings are lower-case
+        if n.chars().next().map(|c| c.is_lowercase() || c == '_').unwrap_or(false) {
+            self.lets.push(n);
+        }
+        syn::visit::visit_pat_ident(self, p);
+    }
+    fn visit_expr_path(&mut self, p: &'ast syn::ExprPath) {
+        if p.path.segments.len() == 1 {
+            let n = p.path.segments[0].ident.to_string();
+            if n.len() > 1 && n.chars().all(|c| c.is_ascii_uppercase() || c.is_ascii_digit() || c == '_') && n.chars().any(|c| c.is_ascii_uppercase()) {
+                if !self.upper_idents.contains(&n) {
+                    self.upper_idents.push(n);
+                }
+            }
+        }
+        syn::visit::visit_expr_path(self, p);
+    }
     fn visit_lit_str(&mut self, l: &'ast syn::LitStr) {
         self.strlits.push(l.value());
     }
@@ -527,12 +554,22 @@ fn gen_fn(ctx: &mut Ctx, fs_: &FnSpec) -> R<()> {
         _ => return fail(format!("{} is not a function", fs_.path)),
     };
     let _ = vis_start;
-    let mut v = BodyV { src: text, edits: vec![], seq: 0, loops: vec![], closures: vec![], stmt_stack: vec![], calls: vec![], breaks: vec![], returns: vec![], fresh: vec![], strlits: vec![], errs: vec![] };
+    let mut v = BodyV { src: text, edits: vec![], seq: 0, loops: vec![], closures: vec![], stmt_stack: vec![], calls: vec![], breaks: vec![], returns: vec![], fresh: vec![], strlits: vec![], errs: vec![], lets: vec![], upper_idents: vec![] };
     attr_edits(attrs, &mut v.edits, &mut v.seq, text);
     vis_edit(vis, &mut v.edits, &mut v.seq);
     v.visit_block(block);
     if !v.errs.is_empty() {
         return fail(v.errs.join("; "));
+    }
+    // E15: constants of the same source file that the body uses and that no `//@ item` extracts
+    for n in &v.upper_idents {
+        if ctx.have_consts.contains(n) || ctx.auto_consts.iter().any(|(_, x)| x == n) {
+            continue;
+        }
+        let defined = srcs.ast.items.iter().any(|it| matches!(it, syn::Item::Const(c) if c.ident == n));
+        if defined && !ctx.need_consts.iter().any(|(_, x)| x == n) {
+            ctx.need_consts.push((srcfile.clone(), n.clone()));
+        }
     }
     let mut all_clauses: Vec<Clause> = vec![];
     let mut rules: Vec<String> = vec!["E2".into()];
@@ -555,6 +592,16 @@ fn gen_fn(ctx: &mut Ctx, fs_: &FnSpec) -> R<()> {
             if a != b {
                 let b2 = b.strip_prefix("mut ").unwrap_or(b).to_string();
                 ren.push((a.clone(), b2));
+            }
+        }
+    }
+    if let Some(ls) = &fs_.locals {
+        // pattern-bound identifiers, positional: a pure rename of locals keeps the contract applicable
+        if ls.len() == v.lets.len() {
+            for (a, b) in ls.iter().zip(v.lets.iter()) {
+                if a != b && !ren.iter().any(|(x, _)| x == a) {
+                    ren.push((a.clone(), b.clone()));
+                }
             }
         }
     }
@@ -678,6 +725,10 @@ fn gen_fn(ctx: &mut Ctx, fs_: &FnSpec) -> R<()> {
             c2.text = fix(&c.text);
             c2.place = "fn".into();
             all_clauses.push(c2);
+        }
+        if std::env::var("TCSS_VACUITY").is_ok() && fs_.clauses.iter().any(|c| c.kind == "ensures") {
+            // vacuity twin (DESIGN.md 8): a function that proves `false` has contradictory preconditions / assumptions
+            all_clauses.push(Clause { kind: "ensures".into(), id: "vacuity.false".into(), tags: vec![], text: "false".into(), place: "fn".into() });
         }
         let req: Vec<(usize, &Clause)> = all_clauses.iter().enumerate().skip(base_idx).filter(|(_, c)| c.kind == "requires").collect();
         let ens: Vec<(usize, &Clause)> = all_clauses.iter().enumerate().skip(base_idx).filter(|(_, c)| c.kind == "ensures").collect();
@@ -895,6 +946,7 @@ fn gen_fn(ctx: &mut Ctx, fs_: &FnSpec) -> R<()> {
             rules.push(e.rule.clone());
         }
     }
+    let lets_dbg = v.lets.clone();
     let mut edits = v.edits;
     ctx.out.push_str("    ");
     let gb = ctx.out.len();
@@ -923,7 +975,7 @@ fn gen_fn(ctx: &mut Ctx, fs_: &FnSpec) -> R<()> {
         "kind": "fn", "path": fs_.path, "file": fs_.file, "src": [span.0, span.1],
         "src_line": line_of(text, span.0), "gen": [gen_base, ctx.out.len()],
         "segments": segs, "clauses": cj, "rules": rules, "twin": twin_range,
-        "n_loops": fs_.loops.len(),
+        "n_loops": fs_.loops.len(), "lets": lets_dbg,
     }));
     Ok(())
 }
@@ -942,6 +994,10 @@ fn gen_item(ctx: &mut Ctx, file: &str, path: &str, opts: &[String], extra: &[Cla
     let mut seq = 0usize;
     let mut rules = vec![];
     let mut clauses = vec![];
+    let mut ctx_have_const: Option<String> = None;
+    if opts.iter().any(|o| o == "auto") {
+        rules.push("E15".to_string());
+    }
     match it {
         syn::Item::Struct(s) => {
             // `noderive:<Trait>`: that derive is replaced by a hand-written, specified impl in the contract file (A2)
@@ -1013,6 +1069,7 @@ fn gen_item(ctx: &mut Ctx, file: &str, path: &str, opts: &[String], extra: &[Cla
             }
         }
         syn::Item::Const(c) => {
+            ctx_have_const = Some(c.ident.to_string());
             attr_edits(&c.attrs, &mut edits, &mut seq, text);
             vis_edit(&c.vis, &mut edits, &mut seq);
             // `&str` consts get 'static
@@ -1061,8 +1118,14 @@ fn gen_item(ctx: &mut Ctx, file: &str, path: &str, opts: &[String], extra: &[Cla
     }
     let gen_base = ctx.out.len();
     let (body, segs, marks) = apply_edits(text, span, &mut edits, gen_base)?;
+    let file_owned = file.to_string();
+    let path_owned = path.to_string();
     ctx.out.push_str(&body);
     ctx.out.push('\n');
+    if let Some(n) = ctx_have_const {
+        ctx.have_consts.push(n);
+    }
+    let (file, path) = (file_owned.as_str(), path_owned.as_str());
     let mut cj = vec![];
     for (i, c) in clauses.iter().enumerate() {
         let m: Vec<&(usize, usize, usize)> = marks.iter().filter(|m| m.0 == i).collect();
@@ -1095,12 +1158,12 @@ fn parse_clause_head(rest: &str) -> (String, Vec<String>, String) {
     (String::new(), vec![], rest.to_string())
 }
 
-fn run() -> R<()> {
+fn run(auto_consts: &Vec<(String, String)>) -> R<Vec<(String, String)>> {
     let args: Vec<String> = std::env::args().collect();
     if args.len() != 6 {
         return fail("usage: tcss-extractor <repo> <verif> <unit.vspec> <out.rs> <out.map.json>");
     }
-    let mut ctx = Ctx { repo: args[1].clone(), verif: args[2].clone(), srcs: BTreeMap::new(), out: String::new(), items: vec![], trust: vec![] };
+    let mut ctx = Ctx { repo: args[1].clone(), verif: args[2].clone(), srcs: BTreeMap::new(), out: String::new(), items: vec![], trust: vec![], have_consts: vec![], need_consts: vec![], auto_consts: auto_consts.clone() };
     let spec = fs::read_to_string(&args[3]).map_err(|e| Fail(format!("cannot read {}: {e}", args[3])))?;
     let lines: Vec<&str> = spec.lines().collect();
     let mut i = 0;
@@ -1201,6 +1264,11 @@ fn run() -> R<()> {
                                     f.params = Some(rest.split_whitespace().map(|s| s.to_string()).collect());
                                     cur = Cur::None;
                                 }
+                                "locals" => {
+                                    // canonical names of the pattern-bound identifiers of the body, in source order (positional binding)
+                                    f.locals = Some(rest.split_whitespace().map(|s| s.to_string()).collect());
+                                    cur = Cur::None;
+                                }
                                 "sig" => {
                                     f.sig = Some(rest.trim().to_string());
                                     cur = Cur::Sig;
@@ -1292,6 +1360,14 @@ fn run() -> R<()> {
                     }
                     gen_fn(&mut ctx, &f)?;
                 }
+                Some("autoconsts") => {
+                    // E15: constants discovered in a first pass (used by extracted bodies, defined in the same file)
+                    let list = ctx.auto_consts.clone();
+                    for (file, name) in list {
+                        gen_item(&mut ctx, &file, &name, &["auto".to_string()], &[])?;
+                    }
+                    i += 1;
+                }
                 Some("lemma") => {
                     // //@ lemma [id tags]  -- marks the next `proof fn` as a named obligation
                     let (id, tags, _) = parse_clause_head(d.strip_prefix("lemma").unwrap());
@@ -1332,11 +1408,18 @@ fn run() -> R<()> {
     fs::write(&args[4], &out).map_err(|e| Fail(format!("write {}: {e}", args[4])))?;
     let map = json!({"spec": args[3], "gen_file": args[4], "items": items, "lemmas": lemma_marks, "trust_decl": ctx.trust});
     fs::write(&args[5], serde_json::to_string_pretty(&map).unwrap()).map_err(|e| Fail(format!("write {}: {e}", args[5])))?;
-    Ok(())
+    Ok(ctx.need_consts.clone())
 }
 
 fn main() {
-    match run() {
+    // pass 1 discovers constants the bodies need (E15); pass 2 emits them at the `//@ autoconsts` directive
+    let first = run(&vec![]);
+    let res = match first {
+        Ok(need) if !need.is_empty() => run(&need).map(|_| ()),
+        Ok(_) => Ok(()),
+        Err(e) => Err(e),
+    };
+    match res {
         Ok(()) => {}
         Err(Fail(m)) => {
             eprintln!("EXTRACT-FAIL: {m}");
